@@ -144,7 +144,9 @@ def restoreOne (cwd : CPath) (overwrite : Bool) (e : Entry) : Prog Res := do
     let parentStr := dirname e.loc
     -- fs.mkdirs(parent): isdir → nothing, else os.makedirs
     let mk ← (if pIsdir fs cwd parentStr then pure (.ok ())
-              else makedirs (dirC fs cwd parentStr).length (dirC fs cwd parentStr) 0o777)
+              else match danglingOnPath fs cwd parentStr with
+                   | some er => pure (.error er)      -- a dangling link on the way: nothing can be created through it
+                   | none => makedirs (dirC fs cwd parentStr).length (dirC fs cwd parentStr) 0o777)
     match mk with
     | .error er => pure (.error er)
     | .ok () =>
